@@ -317,6 +317,15 @@ where
                     return Err(TwoPartyError::InvalidCiphertextType);
                 };
 
+                // The X3DH round only ever takes place for the very first message of the other
+                // party. If we already received something from them, this is a replayed (or
+                // otherwise invalid) initial message. Without this check a replayed initial
+                // message is accepted again when no one-time pre-key was used (long-term key
+                // bundles) and rolls our 2SM state back.
+                if y.our_received_secret_key.is_some() {
+                    return Err(TwoPartyError::PreKeyReuse);
+                }
+
                 // If the underlying key manager provides a one-time secret, we use it here.
                 let (y_manager_i, onetime_secret) = match ciphertext.onetime_prekey_id {
                     Some(onetime_prekey_id) => {
